@@ -105,12 +105,24 @@ KEYWORD_PREDS = ['Select', 'From', 'Where', 'Group', 'Order', 'Union', 'Table',
                  'Index', 'Values']
 
 
+LONG_PREDS = ['LongName' + 'OfAPredicateThatGoesOnAndOn' * 3 + s
+              for s in ('A', 'B', 'Other')]      # 90+ characters, common prefix
+
+
 def RenamePreds(prog, rng, keywords=False):
   """Consistent renaming of all predicates; returns (prog, map old->new)."""
   p = copy.deepcopy(prog)
   names = [pred['name'] for pred in p['preds']]
   pool = list(PRED_POOL)
   rng.shuffle(pool)
+  if rng.random() < 0.35:
+    # very long names that share a long common prefix
+    longs = list(LONG_PREDS)
+    rng.shuffle(longs)
+    pool = longs[:2] + pool
+    head = pool[:max(len(names), 2)]
+    rng.shuffle(head)
+    pool = head + pool[len(head):]
   if keywords:
     kw = list(KEYWORD_PREDS)
     rng.shuffle(kw)
